@@ -312,6 +312,20 @@ def run_ctl_batch(sc, binary, cases, tag, record=True):
 GLUE_CODES = "1 impl<>model tracker calls  2 impl<>spec  3 model<>spec  4 impl<>model cache contents  5 LRU victims not least recently used  6 impl<>model kernel map  9 panic/error"
 
 
+BPF_UPDATE_QUEUE_SIZE = 1024  # const bpfUpdateQueueSize in startBpfUpdateWorker (control/dns_control.go)
+OVERFLOW_MATCHER = "C10/reload-resync-queue-overflow"
+
+
+def reload_overflow_case(n):
+    """n cached names over 16 shared addresses, then a reload: RestoreReloadCache queues one re-sync task
+    per entry on a queue of BPF_UPDATE_QUEUE_SIZE with a non-blocking send."""
+    bm = {"h%d.test." % i: "%x" % (1 << (i % 1000)) for i in range(n)}
+    ops = [{"kind": "insert", "host": "h%d.test" % i, "qtype": 1, "scope": "", "ips": ["10.9.8.%d" % (1 + i % 16)], "ttl": 300}
+           for i in range(n)]
+    ops.append({"kind": "reload"})
+    return {"bitmaps": bm, "bitmaps2": bm, "max_cache_size": 0, "quiet": True, "ops": ops}
+
+
 def gen_ctl_case2(rng):
     """histories biased towards the glue: several scopes of one name sharing addresses, ttl 0 entries,
     lookups (expiry path), evictDnsRespCacheIfSame with current and stale pointers, optimistic cache,
@@ -374,7 +388,7 @@ def glue_case_to_coq(case, res, pool):
     the harness output predates the call recording.  Raises KeyError on a kernel key for no address."""
     cN = pool.n
     steps = res["steps"]
-    if any("calls" not in st for st in steps):
+    if case.get("quiet") or any("calls" not in st for st in steps):
         return None
     tab = {k: ip_int(s) for s, k in res["keys"].items()}
     base_ids, scope_ids, fqdn_ids = {}, {"": 0}, {"": 0}
@@ -439,7 +453,12 @@ def glue_case_to_coq(case, res, pool):
             victims = [k for k in prev_live if k not in live]
             opt = "(OJanitor %s %s)" % (tm(st.get("now", 0)), clist([ckey_term(k) for k in sorted(victims)]))
         elif kind == "reload":
-            opt = "(OReload %s)" % rules_term(case["bitmaps2"] if case.get("bitmaps2") is not None else case["bitmaps"])
+            if len(prev_live) > BPF_UPDATE_QUEUE_SIZE:
+                # more re-sync tasks than the bounded queue holds: which sends found room is an oracle
+                sent = "(sent_of %s)" % clist([ckey_term(c["owner"]) for c in st["calls"] if c["kind"] == "update" and c["owner"]])
+            else:
+                sent = "(fun _ : ckey => true)"
+            opt = "(OReload %s %s)" % (rules_term(case["bitmaps2"] if case.get("bitmaps2") is not None else case["bitmaps"]), sent)
         else:
             raise ValueError("unknown op kind " + kind)
         calls = []
@@ -616,7 +635,16 @@ def _main_rest(args, out, rng, n_cases, wait_proofs, sc, built):
             ctl_first["res"] = run_ctl_all(ctl_cases, "c")
         except Exception as ex:  # reported as a broken correspondence below
             ctl_first["res"] = ([], "controller stream crashed: %r" % (ex,))
+    probe_cases = [reload_overflow_case(900), reload_overflow_case(1500)]
+    probe = {}
+
+    def _probe():
+        try:
+            probe["res"] = run_ctl_batch(sc, binary, probe_cases, "ovf", record=False)
+        except Exception as ex:
+            probe["res"] = (None, "reload probe crashed: %r" % (ex,))
     ct = None
+    ot = None
     all_err = {}
     sigs = []
     shard = 400
@@ -624,6 +652,8 @@ def _main_rest(args, out, rng, n_cases, wait_proofs, sc, built):
     if binary is not None:
         ct = threading.Thread(target=_ctl)
         ct.start()
+        ot = threading.Thread(target=_probe)
+        ot.start()
         for s in range(0, len(cases), shard):
             errs, sg, err = run_batch(sc, binary, cases[s:s + shard], "b%d" % s)
             if err:
@@ -727,8 +757,28 @@ def _main_rest(args, out, rng, n_cases, wait_proofs, sc, built):
                     "searched": "%d controller histories (widened=%s) with no impl<>spec disagreement" % (len(ctl_cases), ctl_widened)}
             out.violation("ctl_glue_tie", what, "controller glue: implementation and model (or model and spec) disagree; no history found on which the kernel table differs from the live cache",
                           no_failing_input=True)
+        # ---- reload with more cached entries than the re-sync task queue holds ----
+        ot.join()
+        perrs, perr = probe["res"]
+        probe_cov = {"sizes": [len(c["ops"]) - 1 for c in probe_cases], "queue_size": BPF_UPDATE_QUEUE_SIZE}
+        if perr:
+            out.violation("ctl_reload_probe_tie", {"correspondence": perr}, "reload probe could not be evaluated", no_failing_input=True)
+        else:
+            probe_cov["failed"] = [len(probe_cases[i]["ops"]) - 1 for i in sorted(perrs) if perrs[i]]
+            if perrs.get(0):
+                out.violation("ctl_impl_vs_spec_reload", {"case": probe_cases[0], "errors": perrs[0],
+                                                          "how": "feed case to TestVerifC10Ctl (quiet: only the last step is dumped): after the reload the kernel shadow map differs from the table of the live cache"},
+                              "controller-level: after a reload of %d cached names the kernel table differs from the live DNS cache" % (len(probe_cases[0]["ops"]) - 1))
+            elif perrs.get(1):
+                n_live = len(probe_cases[1]["ops"]) - 1
+                out.violation("ctl_reload_overflow", {"case": probe_cases[1], "errors": perrs[1],
+                                                      "how": "feed case to TestVerifC10Ctl (quiet: only the last step is dumped): RestoreReloadCache queues one re-sync task per restored entry with a non-blocking send on a queue of %d; "
+                                                             "the entries whose task is dropped are live in the new generation's cache but have no entry in the cleared kernel table (until a later lookup, at least MinBpfUpdateInterval later, re-syncs them); "
+                                                             "the same history with 900 names passes. Model: C10_ctl_mirror_full_refuted." % BPF_UPDATE_QUEUE_SIZE},
+                              "controller-level: after a reload of %d cached names (more than the re-sync task queue of %d) live cache entries are missing from the kernel table" % (n_live, BPF_UPDATE_QUEUE_SIZE),
+                              matchers=[OVERFLOW_MATCHER])
         gsigs = set(CTL_SIGS)
-        cov_ctl = {"controller_histories": len(ctl_cases), "controller_failures": len(ctl_fail),
+        cov_ctl = {"controller_histories": len(ctl_cases), "controller_failures": len(ctl_fail), "reload_overflow_probe": probe_cov,
                    "controller_glue": dict(CTL_STATS, distinct_signatures=len(gsigs),
                                            distinct_nontrivial=len(set(g for g in gsigs if int(g[0]) > 0 and int(g[1]) > 0 and int(g[3]) > 0)),
                                            rule="signature = (#operations issuing an update call, #operations issuing a remove call, #reloads, #steps with two live scopes of one base key sharing an address); non-trivial = update and remove calls and a shared scoped address",
